@@ -63,6 +63,7 @@ inductive Kind where
   | unknownAccount    -- journal.cc 141-155
   | unknownCommodity  -- journal.cc 263-279
   | unknownPayee      -- journal.cc 225-238
+  | unknownTag        -- journal.cc 281-298 (register_metadata, called from add_xact's check_all_metadata)
   | badDirective      -- a one-line directive that throws (bad `P` date, include of a missing file)
 deriving DecidableEq, Repr
 
@@ -74,7 +75,7 @@ deriving DecidableEq, Repr
 def Kind.sev (cfg : Cfg) : Kind → Sev
   | .valid => .none
   | .unbalanced | .badDate | .badAmount | .failedAssert | .badDirective => .error
-  | .unknownAccount | .unknownCommodity =>
+  | .unknownAccount | .unknownCommodity | .unknownTag =>
     match cfg.mode with
     | .normal => .none
     | .strict => .warn
@@ -104,10 +105,11 @@ def mkItem? (k : Kind) (first last bad : Nat) : Option Item :=
 /-- `context.linenum` at the moment the exception is thrown: the header line for
     header-level faults, the posting's line for posting-level faults, the last
     line read for a balance error (finalize runs after the last posting was read,
-    textual.cc xact_directive / parse_xact). -/
+    textual.cc xact_directive / parse_xact) and for an unknown metadata tag (checked by
+    journal_t::add_xact, journal.cc 375-379, after finalize). -/
 def Item.reportLine (i : Item) : Nat :=
   match i.kind with
-  | .unbalanced => i.last
+  | .unbalanced | .unknownTag => i.last
   | .badDate | .unknownPayee | .badDirective | .valid => i.first
   | .badAmount | .failedAssert | .unknownAccount | .unknownCommodity => i.bad
 
